@@ -573,7 +573,11 @@ def make_script_case(rng, shape):
     case = {'op': op, 'n': m, 'prefix': 'q', 'script': sc, 'fault': fault, 'page_size': p}
     if show_all:
         case['show_all'] = True
-    if fault == 'none' or (fault == 'no-page' and at == 0 and len(sc) == 1):
+    if fault == 'grow' and m >= 1:
+        # the listing grew while it was being fetched (every reply from request `at` on announces the larger page count and the
+        # new last pages exist): every page up to the last announced one is requested, every item comes back
+        case['expect'] = {'ids': list(range(m + extra)), 'requests': len(sc)}
+    elif fault == 'none' or (fault == 'no-page' and at == 0 and len(sc) == 1):
         # still a correct paginated listing (a first reply without `page` means page 1): the whole
         # listing must come back with one request per page
         case['expect'] = {'ids': list(range(m)), 'requests': len(sc)}
